@@ -104,6 +104,21 @@ Fixpoint run_chain (c : cfg) (cm : db) (mem : avgcache) (bs : list block) (ex : 
   | _ :: _, [] => Some (0, 5, 0, None)
   end.
 
+(* replay of a chain from a committed database and an in-memory cache: the ledger semantics *)
+Fixpoint replay (c : cfg) (cm : db) (mem : avgcache) (bs : list block) : outcome (db * avgcache) :=
+  match bs with
+  | [] => Done (cm, mem)
+  | b :: bs' =>
+    match step_block c cm mem b with
+    | Done (s', mem') => replay c s' mem' bs'
+    | Stuck code => Stuck code
+    | Crashed code => Crashed code
+    | OracleMiss w => OracleMiss w
+    end
+  end.
+Definition odb {A B} (r : outcome (A * B)) : outcome A :=
+  match r with Done x => Done (fst x) | Stuck e => Stuck e | Crashed e => Crashed e | OracleMiss w => OracleMiss w end.
+
 (* the same with the in-memory cache dropped (a restart) before every block whose height is listed *)
 Fixpoint run_chain_restarts (c : cfg) (restarts : list Z) (cm : db) (mem : avgcache) (bs : list block)
   : outcome db :=
